@@ -1525,7 +1525,43 @@ fn shared_group_membership_changes_keep_every_message() {
             }
         }
     }
-    report(name, "C17", "3 strategies x (duplicate-subscribed member leaving midway: 4 and 9 messages, QoS 0/1; member joining over a backlog of 5 and 120; caught-up member leaving by UNSUBSCRIBE with and without another member)", cases, fail);
+    // (4) one share name used with two different filters: two independent groups (a shared subscription is the pair of
+    //     share name and filter), with the same or with different members
+    if fail.is_none() {
+        'o4: for strategy in [Strategy::RoundRobin, Strategy::Sticky, Strategy::Random] {
+            for q in 0..2u8 {
+                for two_clients in [false, true] {
+                    cases += 1;
+                    let desc = format!("strategy {:?}: $share/g/k/1 and $share/g/k/2 (QoS {}) held by {}; 3 publishes on k/1 then 2 on k/2", strategy, q, if two_clients { "two different clients" } else { "one client" });
+                    let mut r = Router::new(0, cfg(1024 * 1024, 10, strategy.clone()));
+                    let p = connect(&mut r, "p", true).unwrap();
+                    let a = connect(&mut r, "a", true).unwrap();
+                    let b = connect(&mut r, "b", true).unwrap();
+                    send(&mut r, &a, vec![subscribe(1, &[("$share/g/k/1", q)])]);
+                    send(&mut r, if two_clients { &b } else { &a }, vec![subscribe(2, &[("$share/g/k/2", q)])]);
+                    let _ = drain(&mut r, &a);
+                    let _ = drain(&mut r, &b);
+                    let mut got_a = vec![];
+                    let mut got_b = vec![];
+                    for (k, t) in ["k/1", "k/1", "k/1", "k/2", "k/2"].iter().enumerate() {
+                        send(&mut r, &p, vec![publish(t, q, if q == 0 { 0 } else { 40 + k as u16 }, &format!("{}{}", t, k), false)]);
+                        got_a.extend(receive_all(&mut r, &a).into_iter().map(|g| g.1));
+                        got_b.extend(receive_all(&mut r, &b).into_iter().map(|g| g.1));
+                    }
+                    got_a.extend(receive_all(&mut r, &a).into_iter().map(|g| g.1));
+                    got_b.extend(receive_all(&mut r, &b).into_iter().map(|g| g.1));
+                    let first: Vec<String> = vec!["k/10".into(), "k/11".into(), "k/12".into()];
+                    let second: Vec<String> = vec!["k/23".into(), "k/24".into()];
+                    let (want_a, want_b) = if two_clients { (first.clone(), second.clone()) } else { ([first.clone(), second.clone()].concat(), vec![]) };
+                    if got_a != want_a || got_b != want_b {
+                        fail = Some(format!("input=[{}] detail=[a got {:?}, b got {:?}; expected {:?} and {:?}]", desc, got_a, got_b, want_a, want_b));
+                        break 'o4;
+                    }
+                }
+            }
+        }
+    }
+    report(name, "C17", "3 strategies x (duplicate-subscribed member leaving midway: 4 and 9 messages, QoS 0/1; member joining over a backlog of 5 and 120; caught-up member leaving by UNSUBSCRIBE with and without another member; one share name on two filters, same and different members)", cases, fail);
 }
 
 // ---------------------------------------------------------------------------------------------
